@@ -317,6 +317,8 @@ def _armed(plan):
     for ident, b in sorted(plan['procs'].items()):
         if ident in pos and b.get('expect_kill'):
             out.append({'id': ident, 'step': 'main', 'kind': 'timeout_kill', 'real': True})
+        elif ident in pos and b.get('spawn_error'):
+            out.append({'id': ident, 'step': 'main', 'kind': 'spawn_error', 'real': True})
         elif ident in pos and b.get('exit', 0) != 0:
             item = plan['case'][pos[ident][0]][pos[ident][1]]
             if item['k'] == 'probe' and not item.get('ignore'):
